@@ -281,9 +281,38 @@ fn too_big(img: &JxlImage, cap: u32) -> bool {
     h.size.width.max(h.size.height) > cap
 }
 
+/// `buf_grouped::<N>()` is documented to panic unless N is the channel count; what it must never do
+/// is hand out a slice longer than the buffer (added after seeded mutation `c02-m3`, which turned
+/// the length assertion into a debug assertion: an over-long slice in optimised builds). The first
+/// and last pixel of the slice are read, so the sanitizer legs of C02 see an over-long one.
+fn touch_grouped<const N: usize>(fb: &jxl_oxide::FrameBuffer) {
+    let _ = std::panic::catch_unwind(std::panic::AssertUnwindSafe(|| {
+        let g = fb.buf_grouped::<N>();
+        if let (Some(a), Some(b)) = (g.first(), g.last()) {
+            crate::harness::touch_samples(a);
+            crate::harness::touch_samples(b);
+        }
+    }));
+}
+
 fn drain_render(r: &jxl_oxide::Render, awkward: usize) {
     let fb = r.image_all_channels();
     crate::harness::touch_samples(fb.buf());
+    // the documented N always; one other N (the documented panic) in a quarter of the drains
+    let wrong = if awkward % 4 == 0 { 1 + (awkward / 4 + fb.width() + fb.height()) % 8 } else { fb.channels() };
+    for n in [fb.channels(), wrong] {
+        match n {
+            1 => touch_grouped::<1>(&fb),
+            2 => touch_grouped::<2>(&fb),
+            3 => touch_grouped::<3>(&fb),
+            4 => touch_grouped::<4>(&fb),
+            5 => touch_grouped::<5>(&fb),
+            6 => touch_grouped::<6>(&fb),
+            7 => touch_grouped::<7>(&fb),
+            8 => touch_grouped::<8>(&fb),
+            _ => {}
+        }
+    }
     let _ = (fb.width(), fb.height(), fb.channels(), fb.buf().len());
     let planar = r.image_planar();
     let _ = planar.len();
